@@ -86,8 +86,18 @@ def one_case(rec, tap, rng, cid):
     # contact point held fixed at the caller's value (measured units): the
     # remaining problem is linear in modulus and baseline
     cp_fixed = bool(rng.random() < .2)
+    # a minimiser that reports no parameter uncertainties (Nelder-Mead):
+    # noise-free data, no weighting, moduli well above scipy's absolute
+    # xatol of 1e-4
+    nelder = bool(rng.random() < .35 and not noisy and mode in
+                  ("full", "interval") and
+                  full["E"] * min(1.0, k ** (-p_exp)) >= 1e3)
+    if nelder:
+        kw["method"] = "nelder"
+        kw["weight_cp"] = wcp = 0.0
     case = {"id": cid, "spec": spec, "k": k, "mode": mode, "settings": kw,
-            "cp_user": cp_user, "cp_bounds": cp_bounds, "cp_fixed": cp_fixed}
+            "cp_user": cp_user, "cp_bounds": cp_bounds, "cp_fixed": cp_fixed,
+            "nelder": nelder}
     res = {}
     for kk in (k, 1.0):
         idnt, _ = fitlab.build_curve(spec)
@@ -155,6 +165,14 @@ def one_case(rec, tap, rng, cid):
                       "(termination-noise tolerance)")
             # (worst seen on the unchanged tree: 1.8e-4 in 2 x 192000
             #  twins, a 150-point plateau fit; semantic breaks give O(0.1))
+            t_cp, t_e = 1e-3, 1e-3
+        if nelder:
+            # Nelder-Mead reaches 1e-8 on noise-free data when it converges
+            # (C01) but may stop early on its absolute tolerances
+            rec.event("Nelder-Mead twins")
+            if max(fa["chi_sqr"], fb["chi_sqr"]) > 1e-10 * sy:
+                rec.event("Nelder-Mead twins stopped early (not judged)")
+                return
             t_cp, t_e = 1e-3, 1e-3
     if mode == "plat":
         da, db = np.asarray(fa["optimal_fit_delta_array"]), \
